@@ -708,6 +708,9 @@ func execHash(body json.RawMessage) *kernel.Result {
 		for _, rf := range []struct{ name, code string }{
 			{"range-macro", "(def " + acc + "m []) (def " + acc + "mk (list)) (range k v h (set " + acc + "m (append " + acc + "m v)) (set " + acc + "mk (cons k " + acc + "mk))) (list " + acc + "m " + acc + "mk)"},
 			{"range-go", "(def " + acc + "g []) (def " + acc + "gk (list)) {for k, v := range h { " + acc + "g = (append " + acc + "g v); " + acc + "gk = (cons k " + acc + "gk) }} (list " + acc + "g " + acc + "gk)"},
+			// the loop variables may have any name
+			{"range-macro-ni", "(def " + acc + "n []) (def " + acc + "nk (list)) (range n i h (set " + acc + "n (append " + acc + "n i)) (set " + acc + "nk (cons n " + acc + "nk))) (list " + acc + "n " + acc + "nk)"},
+			{"range-macro-in", "(def " + acc + "i []) (def " + acc + "ik (list)) (range i n h (set " + acc + "i (append " + acc + "i n)) (set " + acc + "ik (cons i " + acc + "ik))) (list " + acc + "i " + acc + "ik)"},
 		} {
 			o = ev(rf.code)
 			var arr *zygo.SexpArray
